@@ -576,8 +576,10 @@ def opRemoteCmdK (K : Net → Net × Out) (n : Net) (x y : Nat) : Net × Out :=
         if b.hasSession c.id then
           if b.hasConn c.id then
             ((K (n.upd y (Node.touch c.id n.time))).1,
-             -- the answer travels back to x (whose terminal must be RUNNING to see it)
-             if canDeliver (K (n.upd y (Node.touch c.id n.time))).1 y x then (K (n.upd y (Node.touch c.id n.time))).2 else .failure)
+             -- the answer travels back to x (whose terminal must be RUNNING to see it); a node commanding ITSELF through its gateway
+             -- needs no answer frame: client and server are the same Terminal object, whose `_last_response` the server side has set
+             if x == y || canDeliver (K (n.upd y (Node.touch c.id n.time))).1 y x then (K (n.upd y (Node.touch c.id n.time))).2
+             else .failure)
           else (n, .failure)
         else (disconnect n.fuel n y c.id, .failure)
 
